@@ -72,6 +72,7 @@ func (x *Exec) expr(st *State, e ast.Expr) Term {
 		return x.composite(st, e)
 	case *ast.FuncLit:
 		t := x.freshOf("closure", x.typeOf(e))
+		x.c().axiom(tNot(x.c().opaqueIsNil(t)))
 		return t
 	case *ast.TypeAssertExpr:
 		x.abstractNote(e, "type assertion (havocked)")
@@ -130,7 +131,9 @@ func (x *Exec) ident(st *State, e *ast.Ident) Term {
 			return t
 		}
 	case *types.Func:
-		return x.freshOf("funcval", o.Type())
+		t := x.freshOf("funcval", o.Type())
+		x.c().axiom(tNot(x.c().opaqueIsNil(t)))
+		return t
 	}
 	x.unsupported(e, "identifier %s (%T)", e.Name, obj)
 	return Term{}
